@@ -7,7 +7,7 @@ from ..describe import describe
 from ..engines.schemas import range_parts, index_iter_base
 from .. import lemmas
 from .common import configs_for
-from .util import Rule, guarded, site_of_block
+from .util import Rule, guarded, site_of_block, check_visits_all
 from . import models
 from .C19 import _paths_to_return
 
@@ -84,13 +84,22 @@ def _check(prog, rep):
     wp = ("call", "str::trim_start_matches", (line, None))
     prefix = None
     cases = set()
+    check_visits_all(r4, body, scan, "unfill's scan over text.lines()")
     for tr in loop_system(prog, body, scan, [wpk, ipk, spk], []):
         if tr.kind != "back":
             continue
         site = site_of_block(body, tr.path[-2])
         nw = tr.next[wpk]
-        okw = nw[0] == "call" and nw[1] in ("std::cmp::max", "usize::max", "Ord::max") and \
-            set(nw[2]) == {W, ("call", "crate::core::display_width", (line,))}
+        dwl = ("call", "crate::core::display_width", (line,))
+        okw = nw[0] == "call" and nw[1] in ("std::cmp::max", "usize::max", "Ord::max") and set(nw[2]) == {W, dwl}
+        if not okw:
+            # the same value written as a conditional update: the larger of the two under this path's condition
+            pn = {fact_nf(f) for f in tr.facts if f[0][0] == "cmp"}
+            d = poly(dwl) - poly(W)
+            if nw == dwl and (GT0(d) in pn or GE0(d) in pn):
+                okw = True
+            if nw == W and (GT0(-d) in pn or GE0(-d) in pn):
+                okw = True
         r4.check(okw, "width-step", "width' = max(width, display_width(line))", D(nw),
                  "the detected width becomes %s; expected max(width, display_width(line))" % D(nw), site=site)
         nfs = [fact_nf(f) for f in tr.facts if f[0][0] == "cmp"]
@@ -205,6 +214,7 @@ def _check(prog, rep):
     SI_end = prog.simp(s.val(spk, join.header, 0), body)
     table = {}
     kinds = set()
+    check_visits_all(r2, body, join, "unfill's join loop over the non-empty lines")
     for tr in loop_system(prog, body, join, [dpk], [res]):
         if tr.kind != "back":
             continue
@@ -296,8 +306,153 @@ def _check(prog, rep):
     r3.check(okr, "reported-ending", "the reported ending is detected.unwrap_or(LF)", "", "the returned options' line_ending is not detected.unwrap_or(LineEnding::LF)")
 
 
+NEL = "crate::<line_ending::NonEmptyLines as std::iter::Iterator>::next"
+
+
+def _non_empty_lines(prog, rep):
+    """R7: NonEmptyLines::next skips exactly the empty lines ("\n" and "\r\n"), yields every other line without its
+    ending together with the ending found, advances past the '\n', and yields an unterminated rest once."""
+    from .util import truth_row, row_models, universe
+    from ..idioms import empty_fact
+    body = prog.need_body(NEL)
+    s = sym_of(body)
+    r = Rule(rep, "C15.R7", NEL, site=body.span)
+    D = lambda t: describe(t, body)[:140]
+    loops = loop_models(prog, body)
+    if len(loops) != 1:
+        raise AnchorMissing("NonEmptyLines::next: expected one loop (found %d)" % len(loops))
+    lm = loops[0]
+    spk = (1, ("deref", ("f", 0, "0")))
+    S = s.val_entry(spk, lm.header)
+    if S[0] != "phi":
+        # the field may be keyed differently: take the str-typed place assigned in the loop
+        cands = [pk for pk, (n, ty) in loop_state_vars(body, lm, types=("&str", "&'a str")).items()]
+        if len(cands) != 1:
+            raise AnchorMissing("NonEmptyLines::next: the remaining-text state is not recognised")
+        spk = cands[0]
+        S = s.val_entry(spk, lm.header)
+    find = ("call", "str::find", (S, ("char", 10)))
+    LFI = ("field", ("as", find, "Some"), "0")
+    byte = ("index", ("call", "str::as_bytes", (S,)), ("bin", "Sub", LFI, ("int", 1)))
+    atoms = [(("cmp", "Eq", ("int", 0), LFI), True), (("cmp", "Eq", ("int", 1), LFI), True), (("cmp", "Eq", ("int", 13), byte), True)]
+    # canonical orientation of the atoms as pred.cmp_fact would produce them
+    from ..pred import cmp_fact
+    atoms = [cmp_fact("Eq", a[0][2], a[0][3]) for a in atoms]
+    feasible = lambda b: not (b[0] and b[1])
+    skip = lambda b: b[0] or (b[1] and b[2])
+    rest = ("call", "Index::index", (S, ("adt", "std::ops::RangeFrom", "RangeFrom", (("start", ("bin", "Add", LFI, ("int", 1))),))))
+    is_find_variant = lambda f: f[0][0] == "variant" and f[0][1] == find
+    back_rows, yield_rows = [], []
+    ok_rows = True
+
+    def describe_facts(facts):
+        return [(a[1], D(a[2]), D(a[3]), p) if a[0] == "cmp" else (a[0], p) for a, p in facts][:4]
+    # continuing paths (skips) from the loop's transition system
+    for tr in loop_system(prog, body, lm, [spk], []):
+        if tr.kind != "back":
+            continue
+        found = any(a[0] == "variant" and a[1] == find and ((a[2] == "Some") == pol) for a, pol in tr.facts)
+        site = site_of_block(body, tr.path[-2])
+        r.check(found, "loop-cond", "the loop continues only while a '\\n' is found", "", 
+                "NonEmptyLines::next goes round its loop without having found a line feed", site=site)
+        row = truth_row(tr.facts, atoms, ignore=is_find_variant)
+        if row == "infeasible":
+            continue
+        if row is None:
+            ok_rows = False
+            r.check(False, "cond", "", "", "NonEmptyLines::next skips a line on a condition other than lf == 0, lf == 1 and the byte "
+                    "before the line feed being '\\r': %s" % describe_facts(tr.facts), site=site)
+            continue
+        nxt = tr.next[spk]
+        r.check(poly_eq_term(nxt, rest), "advance", "a skipped line is removed: self.0 := self.0[lf + 1..]", D(nxt),
+                "after skipping a line the remaining text becomes %s; expected &self.0[lf + 1..]" % D(nxt), site=site)
+        back_rows.append(row)
+    # returning paths: a yielded line (line feed found) or the rest (none found)
+    from ..paths import fn_paths
+    seen = set()
+    for path in fn_paths(body):
+        pv = PathView(prog, body, path, keep_headers=True)
+        facts = pv.facts()
+        if contradictory(facts):
+            continue
+        ret = pv.value_before_term((0, ()), path[-1])
+        fin = pv.value_before_term(spk, path[-1])
+        found = None
+        for a, pol in facts:
+            if a[0] == "variant" and a[1] == find:
+                found = ((a[2] == "Some") == pol)
+        site = site_of_block(body, path[-2]) if len(path) > 1 else body.span
+        if found is None:
+            r.check(False, "find", "", "", "a path through NonEmptyLines::next does not search self.0 for '\\n'", site=site)
+            continue
+        if found:
+            row = truth_row(facts, atoms, ignore=is_find_variant)
+            if row == "infeasible":
+                continue
+            if row is None:
+                ok_rows = False
+                r.check(False, "cond", "", "", "NonEmptyLines::next yields a line on a condition other than lf == 0, lf == 1 and the "
+                        "byte before the line feed being '\\r': %s" % describe_facts(facts), site=site)
+                continue
+            yield_rows.append(row)
+            r.check(poly_eq_term(fin, rest), "advance", "a yielded line is removed: self.0 := self.0[lf + 1..]", D(fin),
+                    "after yielding a line the remaining text becomes %s; expected &self.0[lf + 1..]" % D(fin), site=site)
+            crlf = row.get(2)
+            end = ("bin", "Sub", LFI, ("int", 1)) if crlf else LFI
+            want_line = ("call", "Index::index", (S, ("adt", "std::ops::RangeTo", "RangeTo", (("end", end),))))
+            want_end = ("adt", "std::option::Option", "Some", (("0", ("adt", "line_ending::LineEnding", "CRLF" if crlf else "LF", ())),))
+            okr = crlf is not None and ret[0] == "adt" and ret[2] == "Some" and ret[3][0][1][0] == "tuple" \
+                and len(ret[3][0][1][1]) == 2 and poly_eq_term(ret[3][0][1][1][0], want_line) and ret[3][0][1][1][1] == want_end
+            r.check(okr, "yield", "a line ending in %s is yielded without it, tagged %s" % (
+                "\\r\\n" if crlf else "\\n", "CRLF" if crlf else "LF"), D(ret),
+                "NonEmptyLines::next yields %s for a line whose byte before the line feed %s '\\r'; expected (%s, Some(%s))" % (
+                    D(ret), "is" if crlf else "is not", D(want_line), "CRLF" if crlf else "LF"), site=site)
+        else:
+            emp = None
+            for f in facts:
+                ef = empty_fact(f, S)
+                if ef is not None:
+                    emp = ef
+            if emp is None:
+                r.check(False, "rest-branch", "", "", "with no line feed left NonEmptyLines::next does not test whether self.0 is empty", site=site)
+                continue
+            seen.add(emp)
+            if emp:
+                r.check(ret == ("adt", "std::option::Option", "None", ()), "rest-empty", "nothing left: None", D(ret),
+                        "with no text left NonEmptyLines::next returns %s" % D(ret), site=site)
+            else:
+                okt = ret[0] == "adt" and ret[2] == "Some" and ret[3][0][1][0] == "tuple" and len(ret[3][0][1][1]) == 2 \
+                    and ret[3][0][1][1][0][0] == "callm" and ret[3][0][1][1][0][1] == "std::mem::take" \
+                    and ret[3][0][1][1][1] == ("adt", "std::option::Option", "None", ())
+                r.check(okt, "rest", "an unterminated rest is yielded once, with no ending, and the state is emptied", D(ret),
+                        "for an unterminated rest NonEmptyLines::next returns %s; expected (take(&mut self.0), None)" % D(ret), site=site)
+    if ok_rows:
+        got_b = row_models(back_rows, 3, feasible)
+        got_y = row_models(yield_rows, 3, feasible)
+        r.check(got_b == universe(3, skip, feasible), "skip-cond", "a line is skipped exactly when lf == 0 || (lf == 1 && byte before is '\\r')",
+                "truth table %s" % sorted(got_b), "NonEmptyLines::next skips a line for the cases %s of (lf == 0, lf == 1, previous byte == '\\r'); "
+                "expected exactly the empty lines \"\\n\" and \"\\r\\n\"" % sorted(got_b))
+        r.check(got_y == universe(3, lambda b: not skip(b), feasible), "yield-cond", "every other line is yielded", "truth table %s" % sorted(got_y),
+                "NonEmptyLines::next yields a line for the cases %s of (lf == 0, lf == 1, previous byte == '\\r'); expected the complement of "
+                "the skip condition" % sorted(got_y))
+    r.check(seen == {True, False}, "rest-cases", "the rest is conditional on self.0.is_empty()", str(seen),
+            "the code after the loop does not distinguish an empty rest from an unterminated last line", nontrivial=False)
+
+
+def poly_eq_term(a, b):
+    """Equal up to the arithmetic normal form of the index expressions inside a slice."""
+    if a == b:
+        return True
+    if not (isinstance(a, tuple) and isinstance(b, tuple)) or len(a) != len(b) or a[0] != b[0]:
+        return False
+    if a[0] in ("bin", "int"):
+        return poly(a) == poly(b)
+    return all(poly_eq_term(x, y) if isinstance(x, tuple) and isinstance(y, tuple) else x == y for x, y in zip(a, b))
+
+
 def run(prog, rep):
     guarded(rep, "C15.R1", KEY, lambda: _check(prog, rep))
+    guarded(rep, "C15.R7", NEL, lambda: _non_empty_lines(prog, rep))
 
 
 def _mk(rule):
@@ -323,3 +478,14 @@ def _lemma_all(prog):
 
 
 lemmas.register("C15", _lemma_all)
+
+
+def _lemma_r7(prog):
+    from ..engine import Report
+    rep = Report("C15")
+    rep.set_config(prog.config)
+    guarded(rep, "C15.R7", NEL, lambda: _non_empty_lines(prog, rep))
+    return not rep.violations
+
+
+lemmas.register("C15.R7", _lemma_r7)
